@@ -238,7 +238,7 @@ theorem runCounting_fst (s : Listener) (ops : List LOp) :
   | nil => rfl
   | cons op t ih => simp [runCounting, ih]
 
-theorem step_limit (s : Listener) (op : LOp) : (s.step op).1.limit = s.limit := by
+theorem listener_step_limit (s : Listener) (op : LOp) : (s.step op).1.limit = s.limit := by
   cases op <;> simp [Listener.step] <;> split <;> rfl
 
 /-- **The limit over EVERY history, exempt peers and outbound dials included**: however arrivals,
@@ -251,7 +251,7 @@ theorem C10_excess_only_exempt (l : Nat) (ops : List LOp) (s : Listener) (hl : s
   induction ops generalizing s with
   | nil => simp [runCounting]; omega
   | cons op t ih =>
-    have hl' : (s.step op).1.limit = some l := by rw [step_limit]; exact hl
+    have hl' : (s.step op).1.limit = some l := by rw [listener_step_limit]; exact hl
     have := ih (s.step op).1 hl'
     simp only [runCounting]
     have key : max l (s.step op).1.connected.length ≤ max l s.connected.length + (if exemptAdd s op then 1 else 0) := by
